@@ -41,6 +41,7 @@ class Program:
     summary: str = ""
     role: str = "pivot"             # pivot | random
     api_src: str = ""               # Rust that uses public names/signatures the property fixes
+    helper_src: str = ""            # harness-side helper items (oracle tables, vidx, ...): part of the harness region
     prelude: str = ""               # extra `use` lines
     note: str = ""
 
@@ -180,6 +181,8 @@ def render_program(p: Program):
         reg["api"] = (n + 1, m)
         n = m
     out.append("// ---- HARNESS REGION")
+    if p.helper_src:
+        out.append(p.helper_src)
     for h in p.harnesses:
         attrs = ["#[cfg_attr(kani, kani::proof)]"]
         if h.unwind is not None:
